@@ -19,7 +19,11 @@ RULE = ('part T: all trees of the grammar Expr ::= Unary | Expr op Unary, Unary 
         'tree of depth <= 2 x every upper/lower-case assignment x 3 blank styles; part N: nested conditionals in both '
         'branches; part W: \\whiledo over all trees with loop-variant leaves x bound N = 0..6 (tests needing > 6 '
         'iterations are outside the bound), plain body; part B: the same with the four bodies that contain an \\ifthenelse '
-        '(without / with \\( \\)) or an inner \\whiledo (ungrouped / grouped test). Blocks = index ranges (disjoint); each '
+        '(without / with \\( \\)) or an inner \\whiledo (ungrouped / grouped test); part F: every tree of depth <= 1 over 8 fixed leaves (tests ending in a literal, a macro, '
+        '\\value, a truth macro) as \\ifthenelse with all 9 pairs of {marker, empty, side-effect-only} branches x 2 blank styles, and '
+        'every loop test of depth <= 1 x N, each directly followed by: end of input, a digit, a macro expanding to a digit, a '
+        'letter, the closing brace of a group whose local definition the body uses; counters read back afterwards. '
+        'Blocks = index ranges (disjoint); each '
         'block runs in its own process, and a case that is wrong there but right alone is a violation whose replay case '
         'is the (delta-debugged) list of cases of that process that reproduces it from untouched state. A case is non-trivial unless its test is a '
         'single bare atom in parts T/P; distinct = distinct (part, tree, atoms, spelling); outcomes = distinct '
@@ -50,6 +54,9 @@ PRE_ITEMS = [
     ('zzd', '\\newcounter{zzd}\\setcounter{zzd}{-2}'),
     ('zzw', '\\newcounter{zzw}'),
     ('zzv', '\\newcounter{zzv}'),
+    ('zzt', '\\newcounter{zzt}'),
+    ('zze', '\\newcounter{zze}'),
+    ('zzD', '\\def\\zzD{4}'),
     ('zzL', '\\newlength{\\zzL}\\zzL=1in\\relax '),
     ('zzA', '\\def\\zzA{7}'),
     ('zzN', '\\newcommand{\\zzN}{-2}'),
@@ -151,16 +158,20 @@ def new_tex():
     return tex
 
 
-def observe(src, limit=20.0):
+def observe(src, limit=20.0, counters=()):
     """Process `src` as a fresh document with the ifthen package loaded.
-    -> visible text without whitespace | 'raises:<Type>' | 'timeout'"""
+    -> visible text without whitespace [+ '#' + final values of `counters`] | 'raises:<Type>' | 'timeout'"""
     try:
         try:
             with time_limit(limit):
                 tex = new_tex()
                 tex.input(src)
                 doc = tex.parse()
-                return WS.sub('', doc.textContent)
+                out = WS.sub('', doc.textContent)
+                if counters:
+                    cs = tex.ownerDocument.context.counters
+                    out += '#' + ','.join(str(int(cs[c].value)) for c in counters)
+                return out
         finally:
             _disarm()
     except HardTimeout:
@@ -246,6 +257,11 @@ def predict(case, dev=0):
     tree, atoms, _ = case_test(case)
     toks = M.tokens(tree)
     part = case['part']
+    if part == 'F':
+        if case['kind'] == 'ite':
+            return follower_text(case, M.value(tree, lambda i: M.atom_value(atoms[i])))
+        k = M.loop_iterations(lambda c: M.value(tree, lambda i: M.atom_value(atoms[i], 0, loopvar=c)))
+        return 'timeout' if k is None else follower_text(case, k)
     if part in 'WB':
         def evaluate(c):
             lv = lambda i: M.atom_value(atoms[i], dev, loopvar=c)
@@ -278,6 +294,55 @@ def predict(case, dev=0):
     return ite_text(v)
 
 
+# part F: what directly follows the construct (no blank in between), and what the branches are made of.
+# (spelling, visible text); the last entry is "the closing brace of a group whose local definition the body uses"
+FOLLOWERS = [('', ''), ('3', '3'), ('\\zzD ', '4'), ('k', 'k'), None]     # the blank ends the macro name
+BRANCH_KINDS = 'mes'            # marker word / empty / side effect only (\stepcounter)
+F_ATOMS = [('int', ('lit', 1), '<', ('lit', 2)), ('int', ('lit', 2), '<', ('lit', 1)),
+           ('int', ('lit', 6), '<', ('mac', 'zzA')), ('int', ('lit', 9), '<', ('mac', 'zzA')),
+           ('int', ('lit', 2), '<', ('val', 'zzc')), ('int', ('lit', 5), '<', ('val', 'zzc')),
+           ('isodd', ('lit', 3)), ('isodd', ('lit', 2))]
+
+
+def _branch(kind, marker, counter, grouped):
+    if kind == 'm':
+        return marker + ('\\zzG' if grouped else ''), marker + ('wqg' if grouped else ''), 0
+    if kind == 's':
+        return '\\stepcounter{%s}' % counter, '', 1
+    return '', '', 0
+
+
+def follower_doc(case, test):
+    """(document body, counters observed through the API)"""
+    grouped = FOLLOWERS[case['follow']] is None
+    if case['kind'] == 'ite':
+        cons = '\\ifthenelse{%s}{%s}{%s}' % (test, _branch(case['then'], 'wqt', 'zzt', grouped)[0],
+                                            _branch(case['else'], 'wqe', 'zze', grouped)[0])
+        counters = ('zzt', 'zze')
+    else:
+        cons = '\\whiledo{%s}{wqb%s\\stepcounter{zzw}}' % (test, '\\zzG' if grouped else '')
+        counters = ('zzw',)
+    if grouped:
+        return 'wqa{\\def\\zzG{wqg}%s}wqh' % cons, counters
+    f = FOLLOWERS[case['follow']][0]
+    return 'wqa' + cons + f + ('wqz' if f else ''), counters
+
+
+def follower_text(case, v):
+    """expected observation; v = value of the test (ite) / number of rounds (loop)"""
+    grouped = FOLLOWERS[case['follow']] is None
+    if grouped:
+        tail = 'wqh'
+    else:
+        f = FOLLOWERS[case['follow']]
+        tail = f[1] + ('wqz' if f[0] else '')
+    if case['kind'] == 'ite':
+        t = _branch(case['then'], 'wqt', 'zzt', grouped)
+        e = _branch(case['else'], 'wqe', 'zze', grouped)
+        return 'wqa' + (t[1] if v else e[1]) + tail + '#%d,%d' % (t[2] if v else 0, 0 if v else e[2])
+    return 'wqa' + ('wqb' + ('wqg' if grouped else '')) * v + tail + '#%d' % v
+
+
 def nested_body(test, inner):
     return ('wqa\\ifthenelse{%s}{wqt\\ifthenelse{%s}{wqi}{wqj}wqu}{wqe\\ifthenelse{%s}{wqk}{wql}wqf}wqz'
             % (test, inner, inner))
@@ -292,6 +357,9 @@ def nested_text(v, iv):
 def case_source(case, full_preamble=False):
     _, _, test = case_test(case)
     part = case['part']
+    if part == 'F':
+        body = follower_doc(case, test)[0]
+        return preamble_for(body + (' zzt zze' if case['kind'] == 'ite' else '')) + body
     if part in 'WB':
         body = loop_body(test, case.get('body', 0))
     elif part == 'N':
@@ -304,7 +372,7 @@ def case_source(case, full_preamble=False):
 
 
 _LOOP_DEVS = (M.D_NOT_INFIX, M.D_WHILE_GROUP, M.D_LEN_FLOAT)
-APPLICABLE = {'W': _LOOP_DEVS, 'B': _LOOP_DEVS}
+APPLICABLE = {'W': _LOOP_DEVS, 'B': _LOOP_DEVS, 'F': ()}
 DEFAULT_APPLICABLE = (M.D_NOT_INFIX, M.D_LEN_FLOAT)
 
 
@@ -333,7 +401,7 @@ def classify(case, obs):
 
 
 def limit_for(case):
-    return 1.0 if case['part'] in 'WB' else 20.0
+    return 1.0 if case['part'] in 'WB' or case.get('kind') == 'loop' else 20.0
 
 
 CONFIRM_LIMIT = 4.0
@@ -343,9 +411,10 @@ def observe_case(case, full_preamble=False):
     """Observation of a case in a fresh document.  A loop that hits the short limit is run again with a long
     one, so that a busy machine is not mistaken for an endless loop."""
     src = case_source(case, full_preamble)
-    obs = observe(src, limit_for(case))
+    counters = follower_doc(case, '')[1] if case['part'] == 'F' else ()
+    obs = observe(src, limit_for(case), counters)
     if obs == 'timeout' and limit_for(case) < CONFIRM_LIMIT:
-        obs = observe(src, CONFIRM_LIMIT)
+        obs = observe(src, CONFIRM_LIMIT, counters)
     return obs
 
 
@@ -819,6 +888,41 @@ def _run_block(block, rep, blk):
                     rep.count('loopshape_' + f)
                 if idx % 4001 == 5 or (kind and idx % 997 == 3):
                     rep.sample({'input': case_source(case), 'observed': obs})
+    elif tag == 'F':
+        _, kind, N, lo, hi, seed = block
+        E = M.levels(8 if kind == 'ite' else 6, 1)[0]
+        for i in range(lo, hi):
+            tree, ids = positional(E[i])
+            nops = M.n_operators(M.tokens(tree))
+            if kind == 'ite':
+                atoms = [F_ATOMS[c] for c in ids]
+                styles = [(t, e, sp) for t in BRANCH_KINDS for e in BRANCH_KINDS for sp in (0, 1)]
+            else:
+                menu = loop_leaves(N, 6, i, seed)
+                atoms = [menu[c] for c in ids]
+                styles = [('m', 'm', (i + N + seed) % 2)]
+            for follow in range(len(FOLLOWERS)):
+                for t, e, sp in styles:
+                    case = {'part': 'F', 'kind': kind, 'tree': tree, 'atoms': atoms, 'follow': follow, 'style': sp,
+                            'upper': (core.h64((i, N, follow, seed)) >> 8) & ((1 << nops) - 1) if (i + follow + seed) % 2 else 0}
+                    if kind == 'ite':
+                        case['then'], case['else'] = t, e
+                    else:
+                        case['N'] = N
+                    exp = predict(case, 0)
+                    if exp == 'timeout':
+                        rep.count('loop_excluded_more_than_6_iterations')
+                        continue
+                    obs, v = run_case(rep, blk, case)
+                    if cut(rep, blk):
+                        return
+                    rep.count('follower_%d_%s' % (follow, kind))
+                    if kind == 'ite':
+                        taken = t if 'wqt' in exp or exp.endswith('#1,0') or (exp.endswith('#0,0') and M.value(
+                            tree, lambda j: M.atom_value(atoms[j]))) else e
+                        rep.count('selected_branch_' + {'m': 'marker', 'e': 'empty', 's': 'side_effect_only'}[taken])
+                    if (i * 7 + follow) % 211 == 3 and t == 'e':
+                        rep.sample({'input': case_source(case), 'observed': obs})
     else:
         raise ValueError(block)
 
@@ -835,7 +939,7 @@ def skeleton_kinds(tree):
 def run(tier, seed, rep):
     state.pristine()
     quick = tier == 'quick'
-    M.levels(4, 2), M.levels(2, 3 if not quick else 2), M.levels(6, 1), M.levels(3, 2), M.levels(3, 1)    # built once, inherited by fork
+    M.levels(4, 2), M.levels(2, 3 if not quick else 2), M.levels(6, 1), M.levels(3, 2), M.levels(3, 1), M.levels(8, 1)    # built once, inherited by fork
     menus()
     blocks = []
     natoms = len(M.all_atoms()[0])
@@ -872,6 +976,19 @@ def run(tier, seed, rep):
         trees = M.count(nleaf, depth)[0] - (M.count(nleaf, min_depth - 1)[0] if min_depth else 0)
         bounds['whiledo'].append({'leaf_menu': nleaf, 'depth': ('= %d' if min_depth else '<= %d') % depth, 'trees': trees,
                                   'bodies': list(bodies), 'bound_N': '0..6', 'max_iterations': M.LOOP_CAP})
+    # part F: followers and branch alphabet
+    nF = len(M.levels(8, 1)[0])
+    for lo in range(0, nF, 4):
+        blocks.append(('F', 'ite', 0, lo, min(nF, lo + 4), seed))
+    nL = len(M.levels(6, 1)[0])
+    for N in range(0, 7):
+        for lo in range(0, nL, 45):
+            blocks.append(('F', 'loop', N, lo, min(nL, lo + 45), seed))
+    bounds['followers'] = {'followers': ['end of input', 'digit', 'macro expanding to a digit', 'letter',
+                                         'closing brace of a group whose local definition the body uses'],
+                           'conditional': {'trees': nF, 'depth': '<= 1', 'leaves': len(F_ATOMS),
+                                           'branch_kinds': 'marker/empty/side-effect-only, all 9 pairs', 'blank_styles': 2},
+                           'loop': {'trees': nL, 'depth': '<= 1', 'leaf_menu': 6, 'bound_N': '0..6'}}
     blocks = core.rotate(blocks, seed)
     global _STOP
     import multiprocessing
@@ -883,4 +1000,6 @@ def run(tier, seed, rep):
             'floors': {'evaluations': 150000 if quick else 3500000, 'then_taken': 20000, 'else_taken': 20000,
                        'shape_not_after_operator': 10000, 'shape_redundant_group': 10000,
                        'loop_iterations_6': 50, 'loop_iterations_0': 50, 'spelling_cases': 2000,
-                       'grouped_test_with_nested_body': 2000}}
+                       'grouped_test_with_nested_body': 2000,
+                       'selected_branch_empty': 2000, 'selected_branch_side_effect_only': 2000,
+                       'follower_1_ite': 1000, 'follower_2_ite': 1000, 'follower_4_ite': 1000, 'follower_1_loop': 300}}
